@@ -17,6 +17,13 @@ def load_known():
     """
     try:
         with open(PATH) as f:
-            return json.load(f)["findings"]
+            known = json.load(f)["findings"]
     except FileNotFoundError:
-        return []
+        known = []
+    # development aid only (triage of a check that is not registered yet):
+    # an extra findings file; never set by a registered command
+    extra = os.environ.get("PVM_KNOWN_EXTRA")
+    if extra and os.path.exists(extra):
+        with open(extra) as f:
+            known = known + json.load(f)["findings"]
+    return known
